@@ -109,6 +109,7 @@ func (p *Process) run() int {
 
 	if err := p.validateProcess(); err != nil {
 		log.Error().Err(err).Msgf(`Failed to run command ["%v"] for process %s`, strings.Join(p.getCommand(), `" "`), p.getName())
+		p.setExitCode(1)
 		p.onProcessEnd(types.ProcessStateError)
 		return 1
 	}
@@ -120,6 +121,7 @@ loop:
 		if err != nil {
 			log.Error().Err(err).Msgf(`Failed to run command ["%v"] for process %s`, strings.Join(p.getCommand(), `" "`), p.getName())
 			p.logBuffer.Write(err.Error())
+			p.setExitCode(1)
 			p.onProcessEnd(types.ProcessStateError)
 			return 1
 		}
